@@ -4666,7 +4666,9 @@ tsk_treeseq_genetic_relatedness_weighted(const tsk_treeseq_t *self,
         ret = tsk_trace_error(TSK_ERR_INSUFFICIENT_WEIGHTS);
         goto out;
     }
-    ret = check_set_indexes(num_weights, 2 * num_index_tuples, index_tuples);
+    /* The summary functions see num_weights + 1 columns (a column of ones is
+     * appended below), so that is the range the indexes can address */
+    ret = check_set_indexes(num_weights + 1, 2 * num_index_tuples, index_tuples);
     if (ret != 0) {
         goto out;
     }
